@@ -26,7 +26,7 @@ LINKS = ["[link](http://ex.com/a)", "[two words](http://ex.com/a_b?q=1&r=2)", "[
          "[long link text that goes on and on](http://example.com/a/very/long/path/that/keeps/going)"]
 TAGS = ["{% tag %}", "{% tag a=1 b=\"two words\" %}", "{% /tag %}", "{{ var }}", "{{ a.b | filter(\"x y\") }}",
         "{# note #}", "{# a longer comment here #}", "<!-- c -->", "<!-- a longer comment here -->",
-        "<!-- /c -->", "{% field kind=\"string\" id=\"name\" label=\"Full Name\" required=true %}"]
+        "<!-- /c -->", "{{ __version__ }}", "{% if obj.__class__ == x %}", "{# _note_ to self #}", "{{ a*b + c*d }}", "{% field kind=\"string\" id=\"name\" label=\"Full Name\" required=true %}"]
 PAIRED = ["{% f %}{% /f %}", "{% f a=1 %} {% /f %}", "<!-- f --><!-- /f -->", "{{ a }}{{ /a }}", "{# a #}{# /a #}"]
 ADJ_OPEN = ["{% a %}{% b %}", "{{a}}{{b}}", "<!-- a --><!-- b -->", "{% a %}{% b %}{% c %}"]
 HTML = ["<span class=\"a b\">", "</span>", "<br/>", "<a href=\"http://x.y/z\" title=\"t t\">", "</a>", "<b>", "</b>"]
